@@ -1,5 +1,6 @@
 import FrappyProofs.Lemmas.Rotate
 import FrappyProofs.Lemmas.Logging
+import FrappyProofs.Lemmas.LoggingConc
 import FrappyModel.Generated.C20
 /-
 C20 — property theorems (nothing but property theorems and their non-vacuity examples).
@@ -267,5 +268,101 @@ example :
     = [.ok, .ok, .delivered [1], .delivered [1, 2], .ok, .delivered [2], .delivered []] := by decide +kernel
 
 end routing
+
+/-! ## Routing under interleavings (`Node/LoggingConc.lean`) -/
+
+section interleavings
+
+/-- **step_eq_micros** — the sequential model of a request / connection event is the fold of its primitive table
+updates: the interleaving layer refines the model `delivery_iff` is about. -/
+theorem step_eq_micros (t : Tables) (mods : List String) (s : Subs) (op : Op) :
+    (step t mods s op).1 = (microsOf t mods op).foldl (applyMicro t) s := by
+  cases op with
+  | emit m lvl => rfl
+  | ident c => exact setAll_eq_foldl_map t mods s c t.off
+  | disconnect c => exact setAll_eq_foldl_map t mods s c t.off
+  | logging c spec lvl =>
+    cases spec with
+    | none =>
+      simp only [step, microsOf]
+      cases checkLevel t lvl with
+      | none => rfl
+      | some l => exact setAll_eq_foldl_map t mods s c l
+    | some m =>
+      simp only [step, microsOf]
+      by_cases hm : mods.contains m = true
+      · simp only [hm, ↓reduceIte]
+        cases checkLevel t lvl with
+        | none => rfl
+        | some l => rfl
+      · simp only [hm, Bool.false_eq_true, ↓reduceIte]; rfl
+
+/-- **conc_others_unaffected** — whatever primitive updates other connections perform, in whatever order and
+number, the table entry of a connection that does nothing (`c`) stays as it was: at every point of every
+interleaving. -/
+theorem conc_others_unaffected (t : Tables) (s : Subs) (cur : Cur) (hinv : Inv s cur) (zs : List Micro)
+    (c : Conn) (hother : ∀ z ∈ zs, z.c ≠ c) (m : String) (l : Level) :
+    ((m, c), l) ∈ zs.foldl (applyMicro t) s ↔ ((m, c), l) ∈ s := by
+  rw [(foldl_micro_inv t zs hinv).mem, hinv.mem, foldl_microCur_apply, foldl_scanPair_other t m c zs hother]
+
+/-- **conc_depends_on_own** — for every interleaving `zs` of the updates `xs` of the thread that serves connection
+`c` with updates `ys` of other connections (any number of other threads, any order), the entry of `c` ends up as
+if its own thread had run alone: no update of `c` is lost and none is resurrected. -/
+theorem conc_depends_on_own (t : Tables) (s : Subs) (cur : Cur) (hinv : Inv s cur) {xs ys zs : List Micro}
+    (hs : Shuffle xs ys zs) (c : Conn) (hother : ∀ y ∈ ys, y.c ≠ c) (m : String) (l : Level) :
+    ((m, c), l) ∈ zs.foldl (applyMicro t) s ↔ ((m, c), l) ∈ xs.foldl (applyMicro t) s := by
+  rw [(foldl_micro_inv t zs hinv).mem, (foldl_micro_inv t xs hinv).mem, foldl_microCur_apply, foldl_microCur_apply,
+    shuffle_scanPair t m c hs hother]
+
+/-- **conc_emit_bystander** — a record emitted at any moment of a concurrent run (`pre` = everything that happened
+before in the global order) goes to a connection `c` that performed no update so far in that run iff the level `c`
+had chosen before the run admits it. -/
+theorem conc_emit_bystander (t : Tables) (s : Subs) (cur : Cur) (hinv : Inv s cur) (pre post : List CEv)
+    (m : String) (lvl : Level) (c : Conn) (hby : ∀ z, CEv.upd z ∈ pre → z.c ≠ c) :
+    cdeliveries t s (pre ++ CEv.emit m lvl :: post)
+        = cdeliveries t s pre ++ sortConns (receivers (cfinal t s pre) m lvl) :: cdeliveries t (cfinal t s pre) post
+    ∧ (c ∈ sortConns (receivers (cfinal t s pre) m lvl) ↔ ∃ l, cur m c = some l ∧ l ≤ lvl) := by
+  refine ⟨by rw [cdeliveries_append]; rfl, ?_⟩
+  rw [(perm_sortConns _).mem_iff, mem_receivers (cfinal_inv t pre hinv), ccur_other t pre cur m c hby]
+
+/-- **setting_shuffle** — the specification itself is well defined for concurrent histories: the setting of the
+pair `(m, c)` after a sequential prefix followed by ANY interleaving of the events of `c`'s thread (`xs`) with
+events of other connections (`ys`) is the setting after the prefix and `c`'s own events. -/
+theorem setting_shuffle (t : Tables) (mods : List String) (pre : List Op) {xs ys zs : List Op}
+    (hs : Shuffle xs ys zs) (m : String) (c : Conn) (hother : ∀ op ∈ ys, c ∉ opConns op) :
+    setting t mods (pre ++ zs) m c = setting t mods (pre ++ xs) m c := by
+  unfold setting
+  rw [List.foldl_append, List.foldl_append, shuffle_foldl_upd t mods m c hs hother]
+
+/-- … and equals the setting after the concatenation the monitor `judgeConc` uses, for a connection that acts in
+one of the two parts only. -/
+theorem setting_shuffle_concat (t : Tables) (mods : List String) (pre : List Op) {xs ys zs : List Op}
+    (hs : Shuffle xs ys zs) (m : String) (c : Conn)
+    (hone : (∀ op ∈ ys, c ∉ opConns op) ∨ (∀ op ∈ xs, c ∉ opConns op)) :
+    setting t mods (pre ++ zs) m c = setting t mods (pre ++ (xs ++ ys)) m c := by
+  rcases hone with hy | hx
+  · rw [setting_shuffle t mods pre hs m c hy]
+    unfold setting
+    rw [← List.append_assoc, List.foldl_append (l := pre ++ xs) (l' := ys), foldl_upd_other t mods m c ys hy]
+  · rw [setting_shuffle t mods pre hs.symm m c hx]
+    unfold setting
+    rw [List.foldl_append, List.foldl_append, List.foldl_append, foldl_upd_other t mods m c xs hx]
+
+/-- non-vacuity: conn 1 and conn 2 are subscribed to `a`; while thread A disconnects conn 1 (two modules, two
+updates) thread B switches conn 2 to `error` on everything and a poll thread emits a warning of `a`.  In the
+interleaving below the record is emitted between the two updates of the disconnect: conn 3 (bystander, level info
+on `a`) gets it, and at the end conn 1 is off everywhere and conn 2 has `error` on both modules. -/
+example :
+    let t : Tables := ⟨Generated.C20.logLevels, Generated.C20.logOff⟩
+    let s0 := finalState t ["a", "b"] []
+      [.logging 1 (some "a") (.name "debug"), .logging 2 (some "a") (.name "debug"), .logging 3 (some "a") (.name "info")]
+    let evs : List CEv := [.upd ⟨"a", 1, t.off⟩, .upd ⟨"a", 2, 40⟩, .emit "a" 30, .upd ⟨"b", 1, t.off⟩, .upd ⟨"b", 2, 40⟩]
+    cdeliveries t s0 evs = [[3]] ∧
+    (cfinal t s0 evs).map (fun e => (e.1.1, e.1.2, e.2)) = [("a", 3, 20), ("a", 2, 40), ("b", 2, 40)] := by
+  decide +kernel
+
+example : Shuffle [1, 2] [10, 20] [1, 10, 20, 2] := .left 1 (.right 10 (.right 20 (.left 2 .nil)))
+
+end interleavings
 
 end Frappy.Props.C20
